@@ -59,6 +59,8 @@ def _common_config(rng, profile):
         files = [f for f in files if f not in ('src/a/mod.py', 'src/mod.py')][:2] + ['src/link/../mod.py', 'src/mod.py']
     ng = rng.choice([1, 1, 2, 3])
     grammars = rng.sample(corpus.VERSIONS, ng)
+    if profile == 'stale' and rng.random() < 0.15:
+        grammars.append(rng.choice(grammars) + '+c')       # a custom grammar of the same version
     cfg = {
         'files': files,
         'grammars': grammars,
@@ -100,6 +102,8 @@ def _edit_ops(rng, cfg, state, f=None, inflight_bias=False):
         mt = -rng.choice([0.5, 1.0, 3.0, 100.0, 1e5, 40 * 86400.0])     # mtime-preserving copy of an older file
     elif r < 0.17:
         mt = 'same'                                        # touch -r: content changes, mtime does not
+    elif r < 0.19:
+        mt = 'epoch'
     op = dict({'k': 'edit', 'f': f, 'dt': dt, 'mt': mt, 'how': 'atomic'}, **enc)
     r = rng.random()
     if r < 0.25:
